@@ -12,6 +12,7 @@ import FunModel.Drv.C10
 import FunModel.Drv.C15
 import FunModel.Drv.C01
 import FunModel.Drv.C11
+import FunModel.Drv.C08
 
 /-! Line-protocol driver: `driver <property>` reads one S-expression per line on stdin and prints
     the model's observation for it on one line. Core Lean only (no Mathlib) so it links. -/
@@ -35,6 +36,8 @@ def handlerFor : String → Option (Sexp → String)
   | "C15" => some DrvC15.handle
   | "C01" => some DrvC01.handle
   | "C04" => some DrvC01.handle
+  | "C08" => some DrvC08.handle
+  | "C09" => some DrvC08.handle
   | _ => none
 
 partial def loop (h : IO.FS.Stream) (out : IO.FS.Stream) (f : Sexp → String) : IO Unit := do
